@@ -339,7 +339,7 @@ def owner(unit, f):
     if unit == "response_gen" and f.fn == "Response::generate":
         return "C15"
     if unit == "multipart":
-        return "C20" if f.kind in SAFETY_KINDS else "C16"
+        return ("C20", "C04") if f.kind in SAFETY_KINDS else "C16"
     if f.kind == "precondition" and f.snippet.startswith("false@"):
         return "C13"
     return None
@@ -357,6 +357,7 @@ PROPS = {
         "units": ["response_gen", "response_parse"],
         "level": "proof",
         "falsifier": ["parsers", "response"],
+        "always_explore": ["parsers"],
         "case_prefixes": ["c15_", "generate_response"],
         "known_cases": ["c15_generate_differs"],
         "counts": counts_for("C15"),
@@ -454,7 +455,7 @@ PROPS = {
     "C09": {
         "units": ["static", "response_gen", "cors"],
         "level": "proof",
-        "falsifier": ["e2e", "response", "cors"],
+        "falsifier": ["e2e", "response", "cors", "ranges"],
         "case_prefixes": ["c09_", "generate_response", "get_headers", "_process"],
         "counts": counts_for("C09"),
         "samples": [
@@ -477,7 +478,7 @@ PROPS = {
         "assumptions": ["the serialise-then-parse round trip itself is NOT proved (the two halves are proved against their specifications separately)"],
     },
     "C04": {
-        "units": ["server", "request_parse", "range_parse", "static", "app", "controllers", "log", "forms"],
+        "units": ["server", "request_parse", "range_parse", "static", "app", "controllers", "log", "forms", "multipart"],
         "level": "proof",
         "falsifier": ["e2e"],
         "case_prefixes": ["c04_"],
@@ -525,9 +526,10 @@ PROPS = {
         ],
     },
     "C03": {
-        "units": ["range_parse", "response_gen"],
+        "units": ["range_parse", "response_gen", "static"],
         "level": "proof",
-        "falsifier": ["range", "response"],
+        "falsifier": ["range", "response", "ranges"],
+        "case_prefixes": ["range_ok", "accept", "is_416", "panic", "end<len", "generate_response", "c03_"],
         "counts": counts_for("C03"),
         "known_cases": ["end<len"],   # falsifier cases that are the known findings F2 (known_findings.txt)
         "samples": [
